@@ -1,3 +1,228 @@
 import JSight.Model.Paste
+import JSight.Proofs.C07
+/-!
+C07 — MACRO / PASTE (`core/compile_core_macro.go`, `core/compile_core.go`, `core/compile_core_paste.go`).
+
+Specification (`inlineTree`, `inlineForest`, `pastesOf`, `PasteEdge`, `PasteReach`) and property theorems.
+Helper lemmas (parametric in the admissibility tables): `JSight/Proofs/C07.lean`.
+-/
 namespace JSight.C07
+open JSight
+
+/-! ## Specification -/
+
+/- the token stream of a forest in which every PASTE is replaced by the (recursively inlined) children of the
+   macro it names; `none` if a macro is missing or the nesting exceeds the fuel -/
+mutual
+  def inlineTree (ms : Macros) : Nat → Tree → Option (List Tok)
+    | 0, _ => none
+    | fuel + 1, .node d kids =>
+      if d.kind == Gen.Kind.Paste then
+        match ms.get? d.name with
+        | some m => inlineForest ms fuel m.kids
+        | none => none
+      else
+        match inlineForest ms fuel kids with
+        | some ks => some (Tok.dir d :: (ks ++ (if d.explicit then [Tok.close] else [])))
+        | none => none
+  def inlineForest (ms : Macros) : Nat → List Tree → Option (List Tok)
+    | 0, _ => none
+    | _ + 1, [] => some []
+    | fuel + 1, t :: r =>
+      match inlineTree ms fuel t, inlineForest ms fuel r with
+      | some a, some b => some (a ++ b)
+      | _, _ => none
+end
+
+/-- names of the PASTE nodes of a tree, in order.  (A PASTE node has no children of its own — no table
+    admits any — and neither the expansion nor the recursion check looks at them.) -/
+def pastesOf : Tree → List Nat
+  | .node d kids => if d.kind == Gen.Kind.Paste then [d.name] else pastesOfList kids
+where pastesOfList : List Tree → List Nat
+  | [] => []
+  | t :: r => pastesOf t ++ pastesOfList r
+
+/-- macro `a` is defined and its body contains `PASTE @b` -/
+def PasteEdge (ms : Macros) (a b : Nat) : Prop := ∃ m, ms.get? a = some m ∧ b ∈ pastesOf m
+
+/-- transitive closure of `PasteEdge` (core Lean has no `Relation.TransGen`) -/
+inductive PasteReach (ms : Macros) : Nat → Nat → Prop where
+  | single {a b : Nat} : PasteEdge ms a b → PasteReach ms a b
+  | tail {a b c : Nat} : PasteReach ms a b → PasteEdge ms b c → PasteReach ms a c
+
+mutual
+  theorem pastesOf_eq : ∀ t : Tree, pastesOf t = pastes t
+    | .node d kids => by rw [pastesOf, pastes, pastesOfList_eq kids]
+  theorem pastesOfList_eq : ∀ l : List Tree, pastesOf.pastesOfList l = pastes.pastesL l
+    | [] => rfl
+    | t :: r => by rw [pastesOf.pastesOfList, pastes.pastesL, pastesOf_eq t, pastesOfList_eq r]
+end
+
+/-! ## (1) pasting = writing the body in place -/
+
+/-- the expansion of a tree / a list of trees is a `Step` of the scan-time resolution over the inlined
+    token stream -/
+theorem expand_step (ms : Macros) : ∀ fuel : Nat,
+    (∀ outer st t st', expandTree ms fuel outer st t = .ok st' →
+      ∃ toks, inlineTree ms fuel t = some toks ∧ Step st.ctx st'.ctx toks) ∧
+    (∀ outer st l st', expandList ms fuel outer st l = .ok st' →
+      ∃ toks, inlineForest ms fuel l = some toks ∧ Step st.ctx st'.ctx toks) := by
+  intro fuel
+  induction fuel with
+  | zero =>
+    constructor
+    · intro outer st t st' h; simp [expandTree] at h
+    · intro outer st l st' h; simp [expandList] at h
+  | succ fuel ih =>
+    rcases ih with ⟨ihT, ihL⟩
+    constructor
+    · intro outer st t st' h
+      rcases t with ⟨d, kids⟩
+      rw [expandTree] at h
+      rw [inlineTree]
+      split at h
+      · -- PASTE
+        rename_i hk
+        simp only [hk, if_true]
+        split at h
+        · cases h
+        · split at h
+          · cases h
+          · split at h
+            · cases h
+            · rename_i m hm
+              simp only [hm]
+              split at h
+              · cases h
+              · rename_i rules' _
+                split at h
+                · cases h
+                · cases h
+                · rename_i st'' hl
+                  cases h
+                  exact ihL _ { st with rules := rules' } _ _ hl
+      · -- any other directive
+        rename_i hk
+        simp only [hk]
+        split at h
+        · cases h
+        · rename_i c1 hp
+          split at h
+          · cases h
+          · rename_i st2 hl
+            rcases ihL _ _ _ _ hl with ⟨ks, hks, hstep⟩
+            simp only [hks]
+            refine ⟨_, rfl, ?_⟩
+            split at h
+            · rename_i hd
+              cases h
+              exact Step.dirParen hp hd hstep
+            · rename_i hd
+              cases h
+              exact Step.dirPlain hp (by simpa using hd) hstep
+    · intro outer st l st' h
+      cases l with
+      | nil =>
+        rw [expandList] at h
+        cases h
+        exact ⟨[], by rw [inlineForest], Step.nil _⟩
+      | cons t r =>
+        rw [expandList] at h
+        split at h
+        · cases h
+        · rename_i st1 ht
+          rcases ihT _ _ _ _ ht with ⟨a, ha, hsa⟩
+          rcases ihL _ _ _ _ h with ⟨b, hb, hsb⟩
+          exact ⟨a ++ b, by rw [inlineForest, ha, hb], hsa.append hsb⟩
+
+/-- (1) PASTING = WRITING THE BODY IN PLACE: if the expansion succeeds, its result is what the scan-time
+    resolution gives on the token stream with every PASTE replaced by the macro body and the MACRO
+    definitions deleted -/
+theorem expand_eq_inline (roots f : List Tree) (h : expand roots = .ok f) :
+    ∃ ms rest fuel toks, collectMacro roots [] [] = .ok (ms, rest) ∧
+      inlineForest ms fuel rest = some toks ∧ resolve toks = .ok f := by
+  rcases expand_ok h with ⟨ms, rest, st, hc, _, hl, rfl⟩
+  rcases (expand_step ms _).2 _ _ _ _ hl with ⟨toks, htoks, hstep⟩
+  refine ⟨ms, rest, _, toks, hc, htoks, ?_⟩
+  have hne : anyExplicit st.ctx.frames = false :=
+    anyExplicit_eq_false.mpr (hstep.noexp NoExp.nil)
+  simp only [resolve, hstep.run, hne]
+  rfl
+
+/-! ## (2) duplicates, (4) undefined macros -/
+
+/-- (2) a second top-level MACRO with the same name is rejected -/
+theorem duplicate_rejected (roots : List Tree) (t₁ t₂ : Tree) (pre mid post : List Tree)
+    (hr : roots = pre ++ t₁ :: mid ++ t₂ :: post)
+    (h₁ : t₁.dir.kind = Gen.Kind.Macro) (h₂ : t₂.dir.kind = Gen.Kind.Macro)
+    (hn : t₁.dir.name = t₂.dir.name) :
+    ∃ e, expand roots = .error e := by
+  subst hr
+  rcases collect_dup2 pre t₁ mid t₂ post [] [] h₁ h₂ hn with ⟨e, he⟩
+  refine ⟨e, ?_⟩
+  unfold expand
+  rw [List.append_assoc, List.cons_append, he]
+
+/-- (4) a PASTE of an undefined macro that is reached by the expansion is rejected (never silently
+    dropped): if the expansion succeeds, every PASTE node of the non-macro trees names a defined macro -/
+theorem undefined_rejected (roots f : List Tree) (h : expand roots = .ok f) :
+    ∃ ms rest, collectMacro roots [] [] = .ok (ms, rest) ∧
+      ∀ t ∈ rest, ∀ n ∈ pastesOf t, (ms.get? n).isSome := by
+  rcases expand_ok h with ⟨ms, rest, st, hc, _, hl, _⟩
+  refine ⟨ms, rest, hc, ?_⟩
+  intro t ht n hn
+  apply (expand_defined ms _).2 _ _ _ _ hl n
+  rw [pastesOf_eq] at hn
+  clear hl hc
+  induction rest with
+  | nil => cases ht
+  | cons a r ih =>
+    rw [pastes.pastesL]
+    rcases List.mem_cons.mp ht with rfl | ht
+    · exact List.mem_append_left _ hn
+    · exact List.mem_append_right _ (ih ht)
+
+/-! ## (3) recursion -/
+
+/-- (3') any cycle m₁ → m₂ → … → m₁ of macros pasting one another is rejected by the recursion check.
+    No side condition is needed (names may be 0, `ms` may even contain duplicate names): the check fails
+    with *some* error — `recursion`, or `nameMissing` if the DFS meets a nameless PASTE first. -/
+theorem cycle_rejected (ms : Macros) (a : Nat) (h : PasteReach ms a a) :
+    ∃ e, checkRecursion ms = .error e := by
+  cases hc : checkRecursion ms with
+  | error e => exact ⟨e, rfl⟩
+  | ok u =>
+    exfalso
+    have hdef : ∀ x y, PasteReach ms x y → ∃ m, ms.get? x = some m := by
+      intro x y hxy
+      induction hxy with
+      | single e => rcases e with ⟨m, hm, _⟩; exact ⟨m, hm⟩
+      | tail _ _ ih => exact ih
+    rcases hdef a a h with ⟨m, hm⟩
+    rcases check_closed hc hm with ⟨S, hSa, hS⟩
+    have key : ∀ x y, PasteReach ms x y → S x → S y ∧ y ≠ a := by
+      intro x y hxy
+      induction hxy with
+      | single e =>
+        intro hx
+        rcases e with ⟨mx, hmx, hy⟩
+        exact hS _ hx mx hmx _ (pastesOf_eq mx ▸ hy)
+      | tail _ e ih =>
+        intro hx
+        rcases e with ⟨mb, hmb, hy⟩
+        exact hS _ (ih hx).1 mb hmb _ (pastesOf_eq mb ▸ hy)
+    exact (key a a h hSa).2 rfl
+
+/-- (3) a macro that pastes itself, directly, is rejected (no side condition on the name is needed) -/
+theorem self_cycle_rejected (ms : Macros) (a : Nat) (h : PasteEdge ms a a) :
+    ∃ e, checkRecursion ms = .error e :=
+  cycle_rejected ms a (.single h)
+
+/-- (3'') hence also by `expand`, when the macros are those of a source -/
+theorem expand_cycle_rejected (roots : List Tree) (ms : Macros) (rest : List Tree) (a : Nat)
+    (hc : collectMacro roots [] [] = .ok (ms, rest)) (h : PasteReach ms a a) :
+    ∃ e, expand roots = .error e := by
+  rcases cycle_rejected ms a h with ⟨e, he⟩
+  exact ⟨e, by unfold expand; simp only [hc, he]⟩
+
 end JSight.C07
